@@ -40,6 +40,18 @@ ASSUMPTIONS = [
     "training rows, the same frame under a relabelled index (no effect) and with its rows permuted "
     "(rows of the result permuted); a new frame the base evaluation refuses (KF-C06-D13 / D14 classes: "
     "a level or the success value does not occur) is not compared",
+    "prediction on ONE frame object: `evaluate_new_data` (common, group) on a frame, then the rows of "
+    "that same object are reordered / relabelled IN PLACE (sort_values(inplace=True) by an unused key "
+    "or by a used column, shuffled labels + sort_index(inplace=True), `frame.index = ...`, "
+    "reset_index(inplace=True), every column assigned its values in another order under the same "
+    "labels; 2 edits per history in the quick tier, 3 in the thorough one) and it is evaluated again: "
+    "each later result must be the first one with its rows permuted by the composed permutation "
+    "(rule `perm` / `same` of c08_spec); the identity of the frame object is asserted unchanged",
+    "unused columns that SHARE a label (two `dup_id` columns around the frame as pd.concat(axis=1) of "
+    "tables with a common id column gives them; three `dup_tail` columns of different dtypes at the "
+    "end): no effect at all.  A repeated label on a column the formula USES is not explored: the "
+    "unchanged library refuses it (`data[name]` is then a DataFrame: ValueError 'unrecognized type') "
+    "and the statement does not say what such a frame means",
 ]
 TRUSTED = ["pandas positional access (.values), np.unique, np.mean/std/percentile"]
 
@@ -105,7 +117,16 @@ def snapshot(formula, df, resp=None, extra_names=None):
     names = NAMES if resp is None else dict(NAMES, resp=np.asarray(resp, dtype=float))
     if extra_names:
         names = dict(names, **extra_names)
-    obs, _ = designs.observe(formula, df, names)
+    # (designs.observe also renders the frame the design kept for the Lean `design` op, which this
+    # check does not use; that rendering needs unique column labels, so it is skipped for the frames
+    # of this check in which unused columns share a label — only the observation is used here)
+    keep = designs.frame_json
+    if not df.columns.is_unique:
+        designs.frame_json = lambda d: keep(d) if d.columns.is_unique else {"cols": []}
+    try:
+        obs, _ = designs.observe(formula, df, names)
+    finally:
+        designs.frame_json = keep
     if "err" in obs:
         return obs
     dm = obs["_dm"]
@@ -343,6 +364,126 @@ def new_data_pairs(r, dm, df, formula, tier):
     return pairs, meta, errors, refused
 
 
+INPLACE_EDITS = ["sort_values", "sort_index", "relabel", "reset_index", "assign_columns",
+                 "sort_used"]
+
+
+def inplace_edit(r, frame, kind, formula):
+    """edits `frame` IN PLACE (the object, its identity, stays what it was) -> (rule, sigma): sigma[i]
+    = the position, before the edit, of the row that is row i after it (None: rows did not move)"""
+    n = len(frame)
+    if kind == "sort_values":                       # rows sorted by an unused key column
+        order = np.argsort(frame["key_"].to_numpy(), kind="stable").tolist()
+        frame.sort_values("key_", inplace=True, kind="stable")
+        # (a new key for the next sort)
+        return "perm", order
+    if kind == "sort_used":                         # rows sorted by a column the formula uses
+        used = [c for c in used_columns(formula, frame) if c not in NULLABLE_COLUMNS
+                and not isinstance(frame[c].dtype, pd.CategoricalDtype)]
+        if not used:
+            return inplace_edit(r, frame, "sort_values", formula)
+        col = r.choice(used)
+        frame["pos_"] = np.arange(n)
+        frame.sort_values(col, inplace=True, kind="stable", ascending=r.random() < 0.5)
+        order = frame["pos_"].tolist()
+        frame.drop(columns=["pos_"], inplace=True)
+        return "perm", order
+    if kind == "sort_index":                        # shuffled unique labels, then sorted by label
+        labels = list(range(100, 100 + n))
+        r.shuffle(labels)
+        frame.index = labels
+        order = np.argsort(np.asarray(labels), kind="stable").tolist()
+        frame.sort_index(inplace=True)
+        return "perm", order
+    if kind == "relabel":                           # other (non-unique) row labels on the same object
+        frame.index = [r.choice(["a", "b", "c", "zz"]) for _ in range(n)]
+        return "same", None
+    if kind == "reset_index":
+        frame.reset_index(drop=True, inplace=True)
+        return "same", None
+    # "assign_columns": every column is assigned its values in another order, under the same labels
+    sigma = list(range(n))
+    r.shuffle(sigma)
+    for c in list(frame.columns):
+        frame[c] = frame[c].iloc[sigma].set_axis(frame.index)
+    return "perm", sigma
+
+
+def inplace_pairs(r, dm, df, formula, tier):
+    """ONE frame object handed to `evaluate_new_data` (common and group part) several times, its rows
+    reordered / relabelled IN PLACE in between (`sort_values(..., inplace=True)`, `sort_index(
+    inplace=True)`, `frame.index = ...`, `reset_index(inplace=True)`, column-wise assignment): every
+    later result must be the first one with its rows permuted by the composed permutation
+    -> (pairs for c08_spec, meta, errors, refused)"""
+    kept = complete_rows(formula, df)
+    idx = list(kept)
+    r.shuffle(idx)
+    idx = idx[: r.randrange(max(2, len(idx) // 2), len(idx) + 1)]
+    frame = df.iloc[idx].reset_index(drop=True)
+    n = len(frame)
+    key = list(range(n))
+    r.shuffle(key)
+    frame["key_"] = key                              # an unused column: the key of `sort_values`
+
+    def run():
+        out = {}
+        for part in ("common", "group"):
+            obj = getattr(dm, part)
+            if obj is None:
+                out[part] = None
+                continue
+            try:
+                out[part] = designs.mat(obj.evaluate_new_data(frame).design_matrix)
+            except Exception as e:  # noqa
+                out[part] = {"err": type(e).__name__, "msg": str(e)[:80]}
+        return out
+    ident = id(frame)
+    base = run()
+    refused = [p for p in ("common", "group") if isinstance(base[p], dict)]
+    pairs, meta, errors = [], [], []
+    total = list(range(n))                           # total[i] = row of the first frame that is row i now
+    steps = r.sample(INPLACE_EDITS, 2 if tier == "quick" else 3)
+    if not any(k in ("sort_values", "sort_index", "assign_columns", "sort_used") for k in steps):
+        steps[0] = "sort_values"
+    done = []
+    for kind in steps:
+        rule, sigma = inplace_edit(r, frame, kind, formula)
+        assert id(frame) == ident
+        if sigma is not None:
+            total = [total[s] for s in sigma]
+        done.append(kind)
+        other = run()
+        moved = total != list(range(n))
+        for part in ("common", "group"):
+            b, o = base[part], other[part]
+            if b is None or isinstance(b, dict):
+                continue
+            if isinstance(o, dict):
+                errors.append(("+".join(done), part, o))
+                continue
+            pairs.append({"rule": "perm" if moved else "same", "base": b, "other": o,
+                          "sigma": total if moved else [], "meta_base": "", "meta_other": "",
+                          "params_base": [], "params_other": []})
+            meta.append(("inplace:" + "+".join(done), "perm" if moved else "same", part))
+    return pairs, meta, errors, refused
+
+
+def duplicate_unused_variants(r, df):
+    """frames in which two (three) columns the formula does NOT mention share a label, as
+    `pd.concat([...], axis=1)` / a merge of tables that both carry an `id` column produce them; every
+    column the formula can use keeps its unique label"""
+    n = len(df)
+    left = pd.DataFrame({"dup_id": np.arange(n), "note_": ["n"] * n}, index=df.index)
+    right = pd.DataFrame({"dup_id": np.arange(n) + 100}, index=df.index)
+    out = [("same", pd.concat([left, df, right], axis=1), None)]
+    # the repeated label at the end only / with different dtypes and missing values
+    tail = pd.DataFrame({"a_": [np.nan] * n, "b_": ["s"] * n, "c_": np.arange(n) * 1.0},
+                        index=df.index)
+    tail.columns = ["dup_tail"] * 3
+    out.append(("same", pd.concat([df, tail], axis=1), None))
+    return out
+
+
 # variant numbers: 0-8 `variants`, 9 a named index on the complete frame; 100-101 `nan_variants`,
 # 102-103 named indexes on the frame with missing values
 
@@ -359,7 +500,9 @@ def explore(tier, seed, res=None, replay=None):
                 "binary(...) / B(...) atoms with numeric and string success values, further index "
                 "variants per frame (1-based, reversed, strings, dates, non-unique without 0, floats, "
                 "MultiIndex, rows permuted under a RangeIndex) and evaluate_new_data on relabelled / "
-                "permuted new frames; non-trivial = a pair whose design has a categorical or stateful "
+                "permuted new frames, evaluate_new_data on one frame object before and after in-place "
+                "reorderings / relabellings of its rows, frames with unused columns sharing a label; "
+                "non-trivial = a pair whose design has a categorical or stateful "
                 "atom; distinct by (formula, variant)")
     n_cases = 300 if tier == "quick" else 10000
     cases = []
@@ -429,7 +572,13 @@ def explore(tier, seed, res=None, replay=None):
         kept = complete_rows(formula, df)          # rows without a missing value in a used column
         if len(kept) < len(df):
             res.count("designs that drop rows holding pd.NA")
-        numbered = list(enumerate(all_variants)) + list(enumerate(more, start=20))
+        # two unused columns under one label (variant numbers 40, 41; quick tier: one of them)
+        r5 = rng_for(seed, "c08", path, "duplicate-labels")
+        dups = duplicate_unused_variants(r5, df)
+        dups = list(enumerate(dups, start=40))
+        if tier == "quick":
+            dups = [dups[r5.randrange(len(dups))]]
+        numbered = list(enumerate(all_variants)) + list(enumerate(more, start=20)) + dups
         for k, (rule, d2, sigma) in numbered:
             other = snapshot(formula, d2, [resp[i] for i in sigma] if sigma else resp, extra_names)
             if "err" in other:
@@ -464,6 +613,25 @@ def explore(tier, seed, res=None, replay=None):
                     "why": f"evaluate_new_data ({part}) raises {o['err']} on the new frame under "
                            f"index variant '{kind}' although the same rows are accepted under the "
                            "default index"})
+        # prediction on ONE frame object whose rows are reordered / relabelled in place between calls
+        r4 = rng_for(seed, "c08", path, "inplace")
+        if r4.random() < (0.45 if tier == "quick" else 0.7) or (replay is not None and str(
+                replay.get("variant", "")).startswith("inplace:")):
+            ip_, im_, ierr, irefused = inplace_pairs(r4, base["_dm"], df, formula, tier)
+            pairs += ip_
+            meta += im_
+            res.count("in-place pairs (one frame object evaluated, edited in place, evaluated again)",
+                      len(ip_))
+            if any(m[2] == "group" for m in im_):
+                res.count("in-place histories over a design with a group-specific part")
+            for part in irefused:
+                res.count("new frames the base evaluation refuses (not compared)")
+            for kind, part, o in ierr:
+                res.failures.append({
+                    "case": {"formula": formula, "seed_path": path, "variant": "inplace:" + kind,
+                             "part": part}, "impl": o, "expected": "rows permuted", "finding": None,
+                    "why": f"evaluate_new_data ({part}) raises {o['err']} on the frame object after the "
+                           f"in-place edits '{kind}' although it accepted the object before them"})
         # missing values + relabelled indexes
         nbase_df, nvars = nan_variants(r, df)
         nvars = nvars + named_index_variants(
